@@ -1,0 +1,23 @@
+//go:build verif
+
+package strategy
+
+import "sync/atomic"
+
+// Verification hooks (build tag "verif" only); see limiter/verif_on.go.
+
+var verifHook atomic.Value // of func(point string)
+
+// VerifSetHook installs (or, with nil, removes) the schedule-point hook.
+func VerifSetHook(f func(point string)) {
+	if f == nil {
+		f = func(string) {}
+	}
+	verifHook.Store(f)
+}
+
+func verifPoint(name string) {
+	if f, ok := verifHook.Load().(func(string)); ok && f != nil {
+		f(name)
+	}
+}
